@@ -179,10 +179,19 @@ def from_mons(m: Dict[Tuple[Term, ...], object]) -> Term:
     return Poly(tuple(sorted(m.items(), key=lambda kv: (tuple(a.key() for a in kv[0]), str(kv[1])))))
 
 
+# monomials that cancelled exactly in an addition (x + (u - x)): exact over the rationals the analysis computes in, but not in
+# floating point - the walker reports them per assignment so that rules about stored coordinates can ask for exact stores
+CANCEL_LOG: list = []
+
+
 def add(a: Term, b: Term, sign=1) -> Term:
     m = to_mons(a)
     for mon, c in to_mons(b).items():
-        m[mon] = m.get(mon, 0) + sign * c
+        prev = m.get(mon, 0)
+        new = prev + sign * c
+        if mon and prev != 0 and new == 0 and len(CANCEL_LOG) < 100000:
+            CANCEL_LOG.append(mon)
+        m[mon] = new
     return from_mons(m)
 
 
@@ -930,3 +939,25 @@ def strip_epochs(x):
     if isinstance(x, AIsInst):
         return AIsInst(strip_epochs(x.x), strip_epochs(x.t))
     return x
+
+
+def subterms_of(t, skip=None):
+    """Every subterm of a term (pre-order), looking through polynomials, tuples and formulas carried by terms; `skip(sub)` prunes
+    below a subterm (the subterm itself is still yielded)."""
+    import dataclasses
+    out = []
+    stack = [t]
+    while stack:
+        x = stack.pop()
+        if isinstance(x, (str, int, bool, float, Fraction, type(None))):
+            continue
+        if isinstance(x, (tuple, list, frozenset)):
+            stack.extend(x)
+            continue
+        out.append(x)
+        if skip is not None and skip(x):
+            continue
+        if dataclasses.is_dataclass(x):
+            for f in dataclasses.fields(x):
+                stack.append(getattr(x, f.name, None))
+    return out
